@@ -360,7 +360,12 @@ def fn(case, ctx):
                 off += len(mdl.V)
             got = snapshot(m)
             dim = 3 if Cexp else 2 if Fexp else 1 if Eexp else 0
-            ctx.check(got.cls == ["PointCloud", "PolyLine", "SurfaceMesh", "VolumeMesh"][dim], "merge:class", f"{where}: merge gave a {got.cls}, highest dimension present is {dim}")
+            # the class: by the highest-dimensional element present (what construction yields), or - the docstring's wording - the type of
+            # the input with the largest dimensionality (they differ for inputs that hold no element of their own dimension)
+            order = ["PointCloud", "PolyLine", "SurfaceMesh", "VolumeMesh"]
+            by_inputs = max((order.index(mdl.cls) for _, mdl in items if mdl.cls in order), default=dim)
+            ctx.check(got.cls in (order[dim], order[by_inputs]), "merge:class",
+                      f"{where}: merge gave a {got.cls}; highest dimension present is {dim}, largest input class {order[by_inputs]}")
             ctx.check(got.V.shape == Vexp.shape and np.array_equal(got.V, Vexp), "merge:vertices", f"{where}: merged vertices are not the concatenation of the inputs")
             ctx.check(got.F[:len(Fexp)] == Fexp and got.C == Cexp, "merge:elements", f"{where}: merged faces/cells are not the inputs' shifted by the running vertex count: {got.F[:6]} vs {Fexp[:6]}")
             ctx.check(got.E[:len(Eexp)] == Eexp, "merge:edges", f"{where}: merged edges {got.E[:8]} are not the inputs' edges shifted {Eexp[:8]}")
